@@ -192,10 +192,128 @@ fn gen_udptl_history(rng: &mut Rng) -> (u16, u16, Vec<(u16, usize)>) {
     (max_size, e0, ops)
 }
 
+/// one op of the compared `jitter` stream
+#[derive(Clone, Debug)]
+pub enum JOp { Push { seq: Option<u16>, ts: u32, ssrc: Option<u32>, marker: bool, clock: u32, video: bool, id: u32 }, Pop, Reset, Drain }
+fn jop_token(o: &JOp) -> String {
+    let on = |v: Option<u64>| v.map_or("-".to_string(), |x| x.to_string());
+    match o {
+        JOp::Push { seq, ts, ssrc, marker, clock, video, id } => format!("p,{},{ts},{},{},{clock},{},{id}", on(seq.map(|x| x as u64)), on(ssrc.map(|x| x as u64)), *marker as u8, *video as u8),
+        JOp::Pop => "o".into(), JOp::Reset => "r".into(), JOp::Drain => "d".into(),
+    }
+}
+fn sample_id(s: &MediaSample) -> u32 {
+    let d = match s { MediaSample::Audio(f) => &f.data, MediaSample::Video(f) => &f.data };
+    if d.len() == 4 { u32::from_be_bytes([d[0], d[1], d[2], d[3]]) } else { u32::MAX }
+}
+/// whole push / pop / reset histories through one `JitterBuffer` (pure pub API). `mode` 0: `min_delay = max_delay = 0` (every head
+/// sample is old enough); mode 1: `min_delay = 0`, `max_delay = 1 h` (only the next-in-order sample is delivered). After each op the
+/// public observers are compared: `is_empty`, `last_ssrc`, `awaiting_next`, class of `next_pop_wait`; pops and drains compare the
+/// identity (payload tag) of every delivered sample. Implementation-side oracle: a drain never delivers more than max(capacity, 1) samples.
+pub fn run_jitter(run: &mut Run, cap: usize, mode: u8, ops: &[JOp], nt: bool) {
+    use rustrtc::media::frame::{AudioFrame, VideoFrame};
+    let input = format!("{cap} {mode} {}", ops.iter().map(jop_token).collect::<Vec<_>>().join(" "));
+    let o = ops.to_vec();
+    let mut over: Option<usize> = None;
+    let over_ref = std::sync::Arc::new(std::sync::Mutex::new(None::<usize>));
+    let over_w = over_ref.clone();
+    exec(run, "jitter", &input, "JitterBuffer::push/pop", nt, None, move || {
+        let maxd = if mode == 0 { std::time::Duration::ZERO } else { std::time::Duration::from_secs(3600) };
+        let mut jb = rustrtc::media::jitter_buffer::JitterBuffer::new(std::time::Duration::ZERO, maxd, cap);
+        let obs = |jb: &rustrtc::media::jitter_buffer::JitterBuffer| {
+            let w = match jb.next_pop_wait() { None => "n", Some(d) if d.is_zero() => "z", Some(_) => "p" };
+            format!("/{}/{}/{}/{w}", jb.is_empty() as u8, jb.last_ssrc().map_or("-".to_string(), |x| x.to_string()), jb.awaiting_next() as u8)
+        };
+        let mut out = vec![];
+        for op in &o {
+            match op {
+                JOp::Push { seq, ts, ssrc, marker, clock, video, id } => {
+                    let raw = ssrc.map(|ss| { let mut h = RtpHeader::new(0, seq.unwrap_or(0), *ts, ss); h.marker = *marker; RtpPacket::new(h, vec![]) });
+                    let data = bytes::Bytes::from(id.to_be_bytes().to_vec());
+                    let smp = if *video {
+                        MediaSample::Video(VideoFrame { rtp_timestamp: *ts, is_last_packet: *marker, data, sequence_number: *seq, raw_packet: raw, ..Default::default() })
+                    } else {
+                        MediaSample::Audio(AudioFrame { rtp_timestamp: *ts, clock_rate: *clock, data, sequence_number: *seq, marker: *marker, raw_packet: raw, ..Default::default() })
+                    };
+                    jb.push(smp);
+                    out.push(format!("P{}", obs(&jb)));
+                }
+                JOp::Pop => { let r = jb.pop(); out.push(format!("O{}{}", r.as_ref().map_or("-".to_string(), |s| sample_id(s).to_string()), obs(&jb))); }
+                JOp::Reset => { jb.reset(); out.push(format!("R{}", obs(&jb))); }
+                JOp::Drain => {
+                    let mut ids = vec![];
+                    while let Some(s) = jb.pop() { ids.push(sample_id(&s).to_string()); if ids.len() > cap.max(1) + 4 { break; } }
+                    if ids.len() > cap.max(1) { *over_w.lock().unwrap() = Some(ids.len()); }
+                    out.push(format!("D{}{}", ids.join("+"), obs(&jb)));
+                }
+            }
+        }
+        format!("ok {}", out.join(" "))
+    });
+    if let Some(n) = over_ref.lock().unwrap().take() { over = Some(n); }
+    if let Some(n) = over { run.fail("retain:JitterBuffer::push:beyond-capacity", &format!("jitter {input}"), &format!("a drain delivered {n} samples from a jitter buffer of capacity {cap}")); }
+}
+fn gen_jitter(rng: &mut Rng) -> (usize, u8, Vec<JOp>) {
+    let cap = *rng.pick(&[0usize, 1, 2, 3, 3, 8, 8, 64]);
+    let mode = if rng.chance(2, 3) { 0u8 } else { 1 };
+    let video = rng.chance(1, 5);
+    let clock = *rng.pick(&[0u32, 8000, 8000, 48000, 1, 0x8000_0000, 0xFFFF_FFFF]);
+    let eff = if video { 90000u32 } else if clock == 0 { 8000 } else { clock };
+    let mut seq = *rng.pick(&[0u16, 1, 100, 32760, 65500, 65530, 65535]);
+    let mut ts = *rng.pick(&[0u32, 160, 0x7FFF_FF00, 0xFFFF_FF00, 0xFFFF_FFFF]);
+    let mut ssrc = if rng.chance(1, 4) { None } else { Some(9u32) };
+    let mut ops = vec![]; let mut id = 0u32;
+    for _ in 0..rng.range(1, 60) {
+        match rng.below(20) {
+            0..=5 => ops.push(JOp::Pop),
+            6 => if mode == 0 { ops.push(JOp::Drain) } else { ops.push(JOp::Pop) },
+            7 => if rng.chance(1, 4) { ops.push(JOp::Reset) },
+            _ => {
+                let s = match rng.below(14) {
+                    0..=5 => { seq = seq.wrapping_add(1); seq }
+                    6 => seq,
+                    7 => seq.wrapping_sub(rng.range(1, 5) as u16),
+                    8 => { seq = seq.wrapping_add(rng.range(2, 6) as u16); seq }
+                    9 => seq.wrapping_add(*rng.pick(&[63u16, 64, 65, 66, 32767, 32768, 32769])),
+                    10 => { seq = seq.wrapping_add(*rng.pick(&[64u16, 65, 200, 32767])); seq }
+                    11 => rng.next() as u16,
+                    12 => { seq = seq.wrapping_add(2); seq.wrapping_sub(1) }
+                    _ => seq.wrapping_add(rng.range(1, 4) as u16),
+                };
+                let jump = if video { 450_000u32 } else { eff.saturating_mul(2) };
+                let t = match rng.below(12) {
+                    0..=5 => { ts = ts.wrapping_add(160); ts }
+                    6 => { ts = ts.wrapping_add(jump.wrapping_add(*rng.pick(&[0u32, 1, 0xFFFF_FFFF]))); ts }
+                    7 => ts.wrapping_sub(jump.wrapping_add(*rng.pick(&[0u32, 1, 0xFFFF_FFFF]))),
+                    8 => { ts = ts.wrapping_add((eff / 2).wrapping_add(*rng.pick(&[0u32, 1, 0xFFFF_FFFF]))); ts }
+                    9 => ts.wrapping_add(*rng.pick(&[0x7FFF_FFFEu32, 0x7FFF_FFFF, 0x8000_0000, 0x8000_0001])),
+                    10 => rng.next() as u32,
+                    _ => ts,
+                };
+                if rng.chance(1, 25) { ssrc = match rng.below(3) { 0 => None, 1 => Some(9), _ => Some(10 + rng.below(3) as u32) }; }
+                id += 1;
+                ops.push(JOp::Push { seq: if rng.chance(1, 30) { None } else { Some(s) }, ts: t, ssrc, marker: rng.chance(1, 6), clock, video, id });
+            }
+        }
+    }
+    if mode == 0 { ops.push(JOp::Drain); }
+    (cap, mode, ops)
+}
+fn parse_jop(t: &str) -> Option<JOp> {
+    let f: Vec<&str> = t.split(',').collect();
+    match f.as_slice() {
+        ["o"] => Some(JOp::Pop), ["r"] => Some(JOp::Reset), ["d"] => Some(JOp::Drain),
+        ["p", sq, ts, ss, mk, ck, vd, id] => Some(JOp::Push { seq: if *sq == "-" { None } else { Some(sq.parse().ok()?) }, ts: ts.parse().ok()?, ssrc: if *ss == "-" { None } else { Some(ss.parse().ok()?) },
+            marker: *mk == "1", clock: ck.parse().ok()?, video: *vd == "1", id: id.parse().ok()? }),
+        _ => None,
+    }
+}
+
 pub fn special(run: &mut Run, rng: &mut Rng, thorough: bool) {
     let n = if thorough { 40_000 } else { 4_000 };
     for size in [1usize, 1100] { run_mediaflood(run, 0, n, size, 0); for kind in [1u8, 2] { let seed = rng.next(); run_mediaflood(run, kind, n, size, seed); } }
     for _ in 0..(if thorough { 80_000 } else { 4_000 }) { let (m, e, ops) = gen_udptl_history(rng); run_udptlbuf(run, m, e, &ops, true); }
+    for _ in 0..(if thorough { 120_000 } else { 6_000 }) { let (c, m, ops) = gen_jitter(rng); run_jitter(run, c, m, &ops, true); }
     // H.264: every 1-byte payload, then histories + truncations/mutations of their payloads
     run_h264(run, &[Pk { seq: 1, ts: 2, marker: false, payload: vec![] }], false);
     for a in 0..=255u8 { run_h264(run, &[Pk { seq: 1, ts: 2, marker: true, payload: vec![a] }], false); }
@@ -240,6 +358,9 @@ pub fn replay_special(run: &mut Run, stream: &str, a: &[&str]) -> bool {
                 Some(Pk { seq: f[0].parse().ok()?, ts: f[1].parse().ok()?, marker: f[2] == "1", payload: unhex(f[3]) }) }).collect();
             run_h264(run, &pk, true); true }
         "udptl" if a.len() == 1 => { let l = LiveUdptl::new(); run_udptl(run, &l, &unhex(a[0]), true); true }
+        "jitter" if a.len() >= 2 => {
+            let ops: Vec<JOp> = a[2..].iter().filter_map(|t| parse_jop(t)).collect();
+            run_jitter(run, a[0].parse().unwrap_or(8), a[1].parse().unwrap_or(0), &ops, true); true }
         "udptlbuf" if a.len() >= 2 => {
             let ops: Vec<(u16, usize)> = a[2..].iter().filter_map(|t| { let (x, y) = t.split_once(',')?; Some((x.parse().ok()?, y.parse().ok()?)) }).collect();
             run_udptlbuf(run, a[0].parse().unwrap_or(128), a[1].parse().unwrap_or(1), &ops, true); true }
